@@ -356,3 +356,88 @@ def boundary_ints(ty, radix, rng, nrand=4):
 def int_numeral(v, radix, lower=False):
     s = ("-" if v < 0 else "") + to_radix(abs(v), radix)
     return s.lower() if lower else s
+
+
+# ------------------------------------------------------------------------------------------------
+# non-decimal radices
+
+from fractions import Fraction
+
+
+def exp_str(q, xr):
+    return ("-" if q < 0 else "") + to_radix(abs(q), xr)
+
+
+def radix_near(F, r, m, e, nd, base=None, xr=None, above_mid=True):
+    """Strings D^q (mantissa digits in radix r, value = D * base^q) just below / above the midpoint
+    between m*2^e and its successor, with nd significant digits.  base defaults to r."""
+    base = base or r
+    xr = xr or r
+    num = (2 * m + 1)
+    s = e - 1                      # midpoint = num * 2^s
+    # choose q (power of base) so that floor(mid / base^q) has about nd digits of radix r
+    # log_r(mid) ~ (bitlen + s) * log_r(2)
+    import math
+    lg = (num.bit_length() + s) * math.log(2) / math.log(r)
+    qdig = int(lg) - nd            # exponent in units of radix-r digits
+    # base = r^t or r = base^t (mixed: both powers of two)
+    lb = math.log(base) / math.log(r)
+    q = int(math.floor(qdig / lb))
+    # D = floor(num * 2^s / base^q)
+    n_, d_ = num, 1
+    if s >= 0:
+        n_ <<= s
+    else:
+        d_ <<= -s
+    if q >= 0:
+        d_ *= base ** q
+    else:
+        n_ *= base ** (-q)
+    D = n_ // d_
+    exact = (n_ % d_ == 0)
+    return D, q, exact
+
+
+def radix_inputs(F, r, rng, nbin, base=None, xr=None, echar="^", long_frac=0.1):
+    """list of (string, tag) in mantissa radix r / exponent base / exponent radix xr"""
+    base = base or r
+    xr = xr or r
+    out = []
+    allb = list(range(F["emin"], F["emax"] + 1))
+    for e in rng.sample(allb, min(nbin, len(allb))):
+        pats = mantissa_patterns(F, rng, k=2)
+        if e == F["emin"]:
+            pats = [1, 3, rng.randrange(1, 1 << (F["p"] - 1))]
+        for m in rng.sample(pats, 2):
+            for nd in rng.sample([5, 12, 17, 22, 30, 45, 70, 140], 3):
+                D, q, exact = radix_near(F, r, m, e, nd, base, xr)
+                if D <= 0:
+                    continue
+                for dd in ((D, D + 1) if not exact else (D - 1, D, D + 1)):
+                    ds = to_radix(dd, r)
+                    if rng.random() < 0.5:
+                        ds = ds.lower()
+                    k = rng.randrange(0, len(ds))
+                    # move the point k digits to the left: exponent changes only when base == r
+                    if base == r and k and rng.random() < 0.6:
+                        s = "%s.%s%s%s" % (ds[:len(ds) - k], ds[len(ds) - k:], echar, exp_str(q + k, xr))
+                    else:
+                        s = "%s%s%s" % (ds, echar, exp_str(q, xr))
+                    out.append((s, "radix-halfway" if not exact else "radix-exact-halfway"))
+    # exponent sweep (every power-table index), short mantissas
+    import math
+    lo = int(F["emin"] * math.log(2) / math.log(base)) - 25
+    hi = int((F["emax"] + F["p"]) * math.log(2) / math.log(base)) + 3
+    step = max(1, (hi - lo) // (nbin * 3))
+    for q in range(lo, hi + 1, step):
+        nd = rng.choice([1, 3, 8, 14, 20])
+        ds = "".join(rng.choice(DIG[:r]) for _ in range(nd)).lstrip("0") or "1"
+        out.append(("%s%s%s" % (ds, echar, exp_str(q, xr)), "radix-exp-sweep"))
+    # positional forms and zeros
+    for _ in range(6):
+        a = "".join(rng.choice(DIG[:r]) for _ in range(rng.choice([1, 4, 9, 20])))
+        b = "".join(rng.choice(DIG[:r]) for _ in range(rng.choice([1, 4, 9, 30])))
+        out.append(("%s.%s" % (a, b), "radix-positional"))
+    out += [("0", "zero"), ("-0.0", "zero"), ("1", "one"), ("10", "radix"), ("0.1", "inv-radix"),
+            ("1%s%s" % (echar, exp_str(hi + 5, xr)), "overflow"), ("1%s%s" % (echar, exp_str(lo - 40, xr)), "underflow")]
+    return out
